@@ -16,7 +16,7 @@ from .contracts import REGISTRY, Contract
 from .core import Obligation, State, fresh_name, pin
 from .expr import OK, RAISE
 from .specs import SpecLib
-from .stmt import BREAK, CONTINUE, NORMAL, RETURN, StmtMixin, loops_in_order
+from .stmt import BREAK, CONTINUE, NORMAL, RETURN, StmtMixin, comps_in_order, loops_in_order
 from .universe import Source, Universe
 from .vals import Cls, T, Tup, Unsupported
 
@@ -53,6 +53,7 @@ class Engine(StmtMixin):
         self.speclib.revealed = set(c.unfold)
         self.cur_fn_node = fn
         self.loop_ord = loops_in_order(fn)
+        self.comp_ord = comps_in_order(fn)
         self.obligations = []
         from .core import AxiomList
 
